@@ -59,8 +59,38 @@ fn tables_fingerprint() -> String {
 }
 
 /// entry point of the helper sub-commands run in fresh processes
+/// What the repository's tools do at start-up (env_logger): a logger whose level comes from RUST_LOG. Its output goes
+/// nowhere, but with it the arguments of the library's log macros are evaluated exactly as in a hulc2model / thor run.
+struct SinkLogger;
+impl log::Log for SinkLogger {
+    fn enabled(&self, _: &log::Metadata) -> bool {
+        true
+    }
+    fn log(&self, record: &log::Record) {
+        // format the message (this is what evaluates the arguments), then drop it
+        let _ = format!("{}", record.args());
+    }
+    fn flush(&self) {}
+}
+static SINK_LOGGER: SinkLogger = SinkLogger;
+
+fn init_logging_from_env() {
+    let level = match std::env::var("RUST_LOG").unwrap_or_default().to_lowercase().as_str() {
+        "trace" => log::LevelFilter::Trace,
+        "debug" => log::LevelFilter::Debug,
+        "info" => log::LevelFilter::Info,
+        "warn" => log::LevelFilter::Warn,
+        "error" => log::LevelFilter::Error,
+        _ => return,
+    };
+    if log::set_logger(&SINK_LOGGER).is_ok() {
+        log::set_max_level(level);
+    }
+}
+
 pub fn aux_main(args: &[String]) -> i32 {
     crate::panicx::install_hook();
+    init_logging_from_env();
     match args.first().map(|s| s.as_str()) {
         Some("convert") => {
             let p = std::path::PathBuf::from(&args[1]);
